@@ -404,15 +404,43 @@ func genPrefixGameProfile(t *rapid.T) string {
 	return sb.String()
 }
 
+// custom Rego with the characters the translator gives a meaning to ($result, $node, $traceNode, $message are
+// placeholders) used otherwise: a dollar sign that starts no word, doubled, at the end, inside strings and patterns
+var dollarRego = []string{
+	"v := object.get($node, \"http://ex.org/v#p0\", \"\")\n$result = regex.match(\"^[0-9]+$\", v)",
+	"$result = (\"cost: 5$\" != \"\")", "$result = true # $", "$result = ($node != \"$\")", "$$result = true", "$result = (count(\"$ $$ $1 $-\") > 0)",
+	"$result = true\n$", "x := \"$nodes and $results\"\n$result = (x != \"\")", "$result = regex.match(`\\$\\d+`, \"$5\")", "$", "",
+}
+
+func genDollarProfile(t *rapid.T) string {
+	code := pick(t, dollarRego, "dollarRego")
+	form := rapid.IntRange(0, 2).Draw(t, "dollarForm")
+	var sb strings.Builder
+	sb.WriteString("profile: dollars\nprefixes:\n  ex: http://ex.org/v#\nviolation:\n- v\nvalidations:\n  v:\n    targetClass: ex.Test\n")
+	indent := func(s, pad string) string { return pad + strings.ReplaceAll(s, "\n", "\n"+pad) + "\n" }
+	switch form {
+	case 0:
+		sb.WriteString("    rego: |\n" + indent(code, "      "))
+	case 1:
+		sb.WriteString("    rego:\n      message: custom\n      code: |\n" + indent(code, "        "))
+	default:
+		sb.WriteString("    propertyConstraints:\n      ex.p0:\n        rego: |\n" + indent(code, "          "))
+	}
+	return sb.String()
+}
+
 func genC17(t *rapid.T) c17Case {
 	loadFixtures()
 	c := c17Case{Entry: pick(t, c17Entries, "entry"), Debug: rapid.IntRange(0, 3).Draw(t, "debug") == 0}
 	// profile (half of the cases keep the profile valid so that mutated data reaches indexing and evaluation)
-	pk := rapid.IntRange(0, 12).Draw(t, "pkind")
+	pk := rapid.IntRange(0, 13).Draw(t, "pkind")
 	if rapid.Bool().Draw(t, "keepProfile") {
 		pk = 3
 	}
 	switch pk {
+	case 13:
+		c.Profile = genDollarProfile(t)
+		c.Ops = append(c.Ops, "p:dollar-signs-in-rego")
 	case 12:
 		c.Profile = genPrefixGameProfile(t)
 		c.Ops = append(c.Ops, "p:prefix-games")
